@@ -39,6 +39,10 @@ pub struct Game {
     pub corrupt_from: Option<i32>,
     /// glitch: the k-th simulation (1-based) of frame f yields a different state (C13)
     pub glitch: Option<(i32, u32)>,
+    /// transient glitch: the deviation shows only in the checksum of the next save (a recomputed field of the
+    /// state), it is not carried into later frames
+    pub glitch_transient: bool,
+    transient_pending: bool,
     sim_count: std::collections::HashMap<i32, u32>,
     /// report a checksum with every save
     pub with_checksum: bool,
@@ -60,6 +64,8 @@ impl Game {
             st: GState { frame: 0, hash: 7 },
             corrupt_from: None,
             glitch: None,
+            glitch_transient: false,
+            transient_pending: false,
             sim_count: Default::default(),
             with_checksum: true,
             glitch_fired: false,
@@ -78,7 +84,9 @@ impl Game {
                 GgrsRequest::SaveGameState { cell, frame } => {
                     out.push(json!(["S", frame, self.st.frame, self.st.hash]));
                     let cs = if self.with_checksum {
-                        Some(self.st.hash as u128)
+                        let bump = if self.transient_pending { 1 } else { 0 };
+                        self.transient_pending = false;
+                        Some(self.st.hash as u128 + bump)
                     } else {
                         None
                     };
@@ -118,7 +126,11 @@ impl Game {
                     if let Some((gf, k)) = self.glitch {
                         if gf == f && *n == k {
                             self.glitch_fired = true;
-                            h = (h + 1) % HASH_MOD;
+                            if self.glitch_transient {
+                                self.transient_pending = true;
+                            } else {
+                                h = (h + 1) % HASH_MOD;
+                            }
                         }
                     }
                     self.st = GState {
